@@ -43,6 +43,16 @@ package main
 //	gate admit:rate-limit             WaitForRequestLimit fails (codes.ResourceExhausted)
 //	gate admit:ztunnel-without-ambient  a ztunnel node on an instance without PILOT_ENABLE_AMBIENT
 //
+// Readiness accounting (bootstrap marks the instance ready once CommittedUpdates has caught up with the
+// InboundUpdates it saw when the caches were synced; `debounce` adds to CommittedUpdates only AFTER pushFn = Push has
+// returned, i.e. after the context built from those updates is published):
+//
+//	push:* gates                      while Push is parked (inside pushFn) CommittedUpdates must still be behind
+//	                                  InboundUpdates (clause committed-before-push-returned)
+//	gate ready:debounce-commit        the REAL debounce loop (hook VerifDebounce) with a pushFn that blocks: the
+//	                                  committed counter stays 0 while pushFn runs - also when further updates arrive
+//	                                  meanwhile - and reaches the number of updates only after the pushes returned
+//
 // clause admission-refusal-leaves-state: the refused stream got a response, returned no error, or left a
 // connection registered; the retry is judged like any reconnect (init-window-missed-snapshot = stale vs fresh).
 
@@ -57,11 +67,14 @@ import (
 	"sync/atomic"
 	"time"
 
+	uatomic "go.uber.org/atomic"
 	"golang.org/x/time/rate"
 	"google.golang.org/grpc/status"
 
 	"istio.io/istio/pilot/pkg/model"
 	"istio.io/istio/pilot/pkg/xds"
+	"istio.io/istio/pkg/config/schema/kind"
+	"istio.io/istio/pkg/util/sets"
 	"verifharness/internal/wire"
 )
 
@@ -113,7 +126,8 @@ func genInitrace(r *wire.Rng) *History {
 	}
 	h.Steps = [][]Op{ops}
 	h.Gate = wire.Pick(r, []string{"init:after-lastpushcontext", "init:after-lastpushcontext", "init:after-lastpushcontext",
-		"init:after-addcon", "push:after-publish", "push:after-enqueue", "push:after-enqueue", "cold:not-ready", "cold:uninitialised-context"})
+		"init:after-addcon", "init:after-addcon", "init:after-addcon", "push:after-publish", "push:after-enqueue", "push:after-enqueue",
+		"cold:not-ready", "cold:uninitialised-context", "ready:debounce-commit"})
 	h.Proto = wire.Pick(r, []string{"sotw", "delta"})
 	h.Explicit = r.Chance(1, 2)
 	if (strings.HasPrefix(h.Gate, "init:") || strings.HasPrefix(h.Gate, "push:")) && r.Chance(1, 2) {
@@ -123,14 +137,53 @@ func genInitrace(r *wire.Rng) *History {
 		h.Gate = wire.Pick(r, []string{"admit:rate-limit", "admit:ztunnel-without-ambient"})
 		h.Cut = nil
 	}
+	if ztEnabled && strings.HasPrefix(h.Gate, "init:") && r.Chance(1, 5) {
+		// the gated client is a ztunnel (wildcard WDS over delta); the change inside the window is a new pod
+		h.Flavor, h.Proto = "zt", "delta"
+		h.Base = genZtBase(r)
+		wz := newWorld(true)
+		for _, o := range h.Base {
+			wz.note(o)
+		}
+		free := ""
+		for _, p := range ztPods {
+			if _, ok := wz.Pods[p]; !ok {
+				free = p
+				break
+			}
+		}
+		if free == "" {
+			free = ztPods[0]
+			h.Base = append(h.Base, Op{K: "poddel", N: free})
+		}
+		h.Steps = [][]Op{{genPod(r, free)}}
+	}
 	return h
+}
+
+// gatedTypes: what is compared for the flavour.
+func gatedTypes(h *History) []string {
+	if h.Flavor == "zt" {
+		return []string{"WDS"}
+	}
+	return envoyTypes
+}
+
+func newGated(h *History, label, name string) *envoy {
+	if h.Flavor == "zt" {
+		e := newZt(label, "wildcard", name)
+		e.explicit = h.Explicit
+		return e
+	}
+	e := newEnvoy(label, h.Proto == "delta", name)
+	e.explicit = h.Explicit
+	return e
 }
 
 // gatedClient: the client that will go through the gate - brand-new, or (cut spec) one that was connected
 // before and retained what it held then.
 func gatedClient(st *site, h *History, stt *stats) (*envoy, connectOpts, *result) {
-	e := newEnvoy(h.Proto, h.Proto == "delta", "app-"+h.Proto)
-	e.explicit = h.Explicit
+	e := newGated(h, h.Proto, "app-"+h.Proto)
 	if h.Cut == nil {
 		return e, connectOpts{}, nil
 	}
@@ -146,12 +199,14 @@ func gatedClient(st *site, h *History, stt *stats) (*envoy, connectOpts, *result
 		return nil, connectOpts{}, &r
 	}
 	stt.Reconnects["gated-client-retains-state"]++
-	stt.Retained += countHeld(e.snapshot(), envoyTypes)
+	stt.Retained += countHeld(e.snapshot(), gatedTypes(h))
 	return e, connectOpts{order: h.Cut.Order, keepNonce: h.Cut.KeepNonce}, nil
 }
 
 func runInitrace(h *History, stt *stats) result {
 	switch {
+	case h.Gate == "ready:debounce-commit":
+		return runDebounceCommit(h, stt)
 	case strings.HasPrefix(h.Gate, "admit:"):
 		return runAdmission(h, stt)
 	case strings.HasPrefix(h.Gate, "push:"):
@@ -241,32 +296,10 @@ func runInitrace(h *History, stt *stats) result {
 	if !st.quiesce(e) {
 		return timeoutResult("client after release", map[string]any{"log": e.streamLog(), "errors": e.errors()})
 	}
-	check := func(label string) ([]diff, *result) {
-		fresh := newEnvoy("fresh", h.Proto == "delta", "app-fresh-"+label)
-		fresh.explicit = h.Explicit
-		fresh.connect(st, connectOpts{})
-		defer fresh.disconnect()
-		if !st.quiesce(e, fresh) {
-			r := timeoutResult("fresh client", map[string]any{"log": fresh.streamLog(), "errors": fresh.errors()})
-			return nil, &r
-		}
-		a, b := e.snapshot(), fresh.snapshot()
-		stt.Comparisons++
-		stt.Compared += countHeld(b, envoyTypes)
-		stt.client(fresh)
-		return compareHeld(a, b, envoyTypes), nil
-	}
-	df, tr := check("1")
+	// the claim is "stale until the next unrelated push": a difference must persist in a quiescent system
+	df, tr := compareWithFresh(st, h, e, stt)
 	if tr != nil {
 		return *tr
-	}
-	if len(df) > 0 {
-		// the claim is "stale until the next unrelated push": it must persist in a quiescent system
-		time.Sleep(patience / 3)
-		df, tr = check("2")
-		if tr != nil {
-			return *tr
-		}
 	}
 	stt.client(e)
 	if errs := e.errors(); len(errs) > 0 {
@@ -278,7 +311,7 @@ func runInitrace(h *History, stt *stats) result {
 			"registered_while_published": registered, "log": e.streamLog()}}
 	}
 	return result{OK: true, Summary: "initrace gate=" + gate + " proto=" + h.Proto + " ops=" + opsShort(h.Steps) +
-		" held=" + itoa(countHeld(e.snapshot(), envoyTypes))}
+		" flavor=" + h.Flavor + " held=" + itoa(countHeld(e.snapshot(), gatedTypes(h)))}
 }
 
 // waitClientCalm waits until the client is through its initial exchange and has seen no traffic for a
@@ -297,8 +330,7 @@ func waitClientCalm(e *envoy) bool {
 // compareWithFresh: what the client holds against a client connected now (a difference must persist).
 func compareWithFresh(st *site, h *History, e *envoy, stt *stats) ([]diff, *result) {
 	check := func(label string) ([]diff, *result) {
-		fresh := newEnvoy("fresh", h.Proto == "delta", "app-fresh-"+label)
-		fresh.explicit = h.Explicit
+		fresh := newGated(h, "fresh", "app-fresh-"+label)
 		fresh.connect(st, connectOpts{})
 		defer fresh.disconnect()
 		if !st.quiesce(e, fresh) {
@@ -307,9 +339,9 @@ func compareWithFresh(st *site, h *History, e *envoy, stt *stats) ([]diff, *resu
 		}
 		a, b := e.snapshot(), fresh.snapshot()
 		stt.Comparisons++
-		stt.Compared += countHeld(b, envoyTypes)
+		stt.Compared += countHeld(b, gatedTypes(h))
 		stt.client(fresh)
-		return compareHeld(a, b, envoyTypes), nil
+		return compareHeld(a, b, gatedTypes(h)), nil
 	}
 	df, tr := check("1")
 	if tr != nil {
@@ -372,6 +404,8 @@ func runPushGate(h *History, stt *stats) result {
 	// at either gate the snapshot this Push built must already be the global one: a connection that
 	// initialises now is not in the push round (after-enqueue) or may not be (after-publish)
 	publishedAtGate := xds.VerifE2EGlobalPushContext(d) != before
+	// Push has not returned: the updates it carries are not committed yet (bootstrap's readiness test reads this counter)
+	committedAtGate, inboundAtGate := d.CommittedUpdates.Load(), d.InboundUpdates.Load()
 
 	e.connect(st, copts)
 	defer e.disconnect()
@@ -398,6 +432,10 @@ func runPushGate(h *History, stt *stats) result {
 		return result{Clause: "init-window-missed-snapshot", Detail: map[string]any{
 			"n": len(df), "diff": limitDiffs(df, 6), "a": "client that initialised while Push was parked at " + gate, "b": "fresh client",
 			"published_at_gate": publishedAtGate, "registered_while_parked": registered, "log": e.streamLog()}}
+	}
+	if committedAtGate >= inboundAtGate {
+		return result{Clause: "committed-before-push-returned", Detail: map[string]any{"gate": gate, "committed": committedAtGate, "inbound": inboundAtGate,
+			"what": "CommittedUpdates has caught up with InboundUpdates while the Push that carries the updates has not returned: an instance that is starting would be marked ready before its push context is complete"}}
 	}
 	if !publishedAtGate {
 		return result{Clause: "push-enqueued-before-published", Detail: map[string]any{"gate": gate,
@@ -651,4 +689,76 @@ func runAdmission(h *History, stt *stats) result {
 			"a": "proxy that was refused (" + h.Gate + ") and retried", "b": "fresh client", "log": e.streamLog()}}
 	}
 	return result{OK: true, Summary: "initrace gate=" + h.Gate + " proto=" + h.Proto + " held=" + itoa(countHeld(e.snapshot(), envoyTypes))}
+}
+
+// runDebounceCommit drives the real debounce loop with a blocking push function.
+func runDebounceCommit(h *History, stt *stats) result {
+	stt.Cuts["gate:"+h.Gate]++
+	ch := make(chan *model.PushRequest, 16)
+	stop := make(chan struct{})
+	defer close(stop)
+	var sent uatomic.Int64
+	entered := make(chan int, 16)
+	release := make(chan struct{}, 16)
+	npush := 0
+	pushFn := func(req *model.PushRequest) {
+		npush++
+		entered <- npush
+		<-release
+	}
+	after := time.Duration(h.Debounce) * time.Millisecond
+	go xds.VerifDebounce(ch, stop, after, 10*after+50*time.Millisecond, h.Explicit, pushFn, &sent)
+	key := func(i int) *model.PushRequest {
+		return &model.PushRequest{ConfigsUpdated: sets.New(model.ConfigKey{Kind: kind.ServiceEntry, Name: "se-" + itoa(i), Namespace: proxyNs}),
+			Reason: model.NewReasonStats(model.ConfigUpdate)}
+	}
+	fail := func(where string, inbound int64) result {
+		return result{Clause: "committed-before-push-returned", Detail: map[string]any{"where": where, "committed": sent.Load(), "inbound": inbound,
+			"what": "the debouncer counted updates as committed while the push function that carries them had not returned"}}
+	}
+	first := 1 + len(h.Steps[0])
+	for i := 0; i < first; i++ {
+		ch <- key(i)
+	}
+	inbound := int64(first)
+	select {
+	case <-entered:
+	case <-time.After(settleTime):
+		return timeoutResult("debounce never called the push function", nil)
+	}
+	time.Sleep(5 * calmTime / 3)
+	if sent.Load() != 0 {
+		return fail("first push running", inbound)
+	}
+	// more updates arrive while the push runs (an informer still delivering): they must not be counted either
+	for i := 0; i < 2; i++ {
+		ch <- key(100 + i)
+	}
+	inbound += 2
+	time.Sleep(after + 5*calmTime/3)
+	if sent.Load() != 0 {
+		return fail("updates received while the first push runs", inbound)
+	}
+	release <- struct{}{}
+	// the first push returned: exactly its updates are committed; the later ones only after THEIR push returned
+	select {
+	case <-entered:
+	case <-time.After(settleTime):
+		return timeoutResult("debounce never started the second push", nil)
+	}
+	time.Sleep(5 * calmTime / 3)
+	if got := sent.Load(); got >= inbound {
+		return fail("second push running", inbound)
+	}
+	release <- struct{}{}
+	deadline := time.Now().Add(settleTime)
+	for sent.Load() != inbound {
+		if time.Now().After(deadline) {
+			return result{Clause: "committed-before-push-returned", Detail: map[string]any{"where": "after all pushes returned", "committed": sent.Load(), "inbound": inbound,
+				"what": "the committed counter never reached the number of updates received: the instance would never become ready"}}
+		}
+		time.Sleep(pollEvery)
+	}
+	stt.Comparisons++
+	return result{OK: true, Summary: "initrace gate=" + h.Gate + " updates=" + itoa(int(inbound)) + " debounce_ms=" + itoa(h.Debounce) + " eds_debounce=" + wire.B(h.Explicit)}
 }
